@@ -15,7 +15,22 @@ func verifC12Helper() (ISwitchHelper, int, bool) {
 	w := verifnd.Int("w", 0, 1<<62)
 	semi := verifnd.Bool("semisync")
 	cfg := &config.Config{RplSemiSyncMasterWaitForSlaveCount: w, SemiSync: semi, PriorityChoiceMaxLag: time.Second}
-	return NewSwitchHelper(cfg), w, semi
+	// every other switch of the configuration is arbitrary: the arithmetic depends on (n, w, semi_sync) only
+	cfg.ForceSwitchover = verifnd.Bool("cfg.force_switchover")
+	cfg.ASync = verifnd.Bool("cfg.async")
+	cfg.Failover = verifnd.Bool("cfg.failover")
+	cfg.ReplMon = verifnd.Bool("cfg.repl_mon")
+	cfg.ManagerSwitchover = verifnd.Bool("cfg.manager_switchover")
+	cfg.ResetupCrashedHosts = verifnd.Bool("cfg.resetup_crashed_hosts")
+	cfg.MasterFirstAdjustSSOrder = verifnd.Bool("cfg.master_first")
+	cfg.DisableSemiSyncReplicationOnMaintenance = verifnd.Bool("cfg.disable_ss_on_maintenance")
+	cfg.AsyncAllowedLag = time.Duration(verifnd.Int("cfg.async_allowed_lag_ns", 0, 1<<42))
+	sh := NewSwitchHelper(cfg)
+	// the lag bound of candidate selection (C14): the configured one, widened by the async allowed lag
+	lag := sh.GetPriorityChoiceMaxLag()
+	verifnd.Assert(verifnd.And(lag >= cfg.PriorityChoiceMaxLag, verifnd.Implies(cfg.ASync, lag >= cfg.AsyncAllowedLag)), "q.lag-bound")
+	verifnd.Assert(verifnd.Or(lag == cfg.PriorityChoiceMaxLag, verifnd.And(cfg.ASync, lag == cfg.AsyncAllowedLag)), "q.lag-bound")
+	return sh, w, semi
 }
 
 // H_C12_arith: required count and quorum relations for every (n, w).
